@@ -189,6 +189,17 @@ class Facts:
                 raise MissingAnchor(f"no fact file for crate {name} ({kind}) in config {self.config}")
             with open(self.files[key]) as fh:
                 d = json.load(fh)
+            if os.environ.get("VERIF_ALPHA"):
+                # checker self-test (tools/alpha_test.sh): consistently rename every local of every function in the facts.
+                # Renaming locals preserves behaviour, so no rule may change its verdict.
+                for h in d["hir"]:
+                    alpha_rename(h, os.environ["VERIF_ALPHA"])
+            if not os.environ.get("VERIF_NO_CANON"):
+                ref = locals_ref().get(f"{name}/{kind}", {})
+                renamed = 0
+                for h in d["hir"]:
+                    renamed += canonical_locals(h, ref.get(h["path"]))
+                self.renamed_locals = getattr(self, "renamed_locals", 0) + renamed
             self._crates[key] = d
             self._idx[key] = {
                 "fns": {f["path"]: f for f in d["fns"]},
@@ -318,6 +329,113 @@ class Facts:
             out[f"{cn}:{kind}"] = {"mir_bodies": len(d["fns"]), "hir_bodies": len(d["hir"]),
                                    "adts": len(d["adts"]), "consts": len(d["consts"])}
         return out
+
+
+def alpha_rename(h, suffix):
+    """rename every local binding (pattern binders and the paths that refer to them) of one HIR function in place; `self` is kept"""
+    import zlib
+    mod = 1
+    if ":" in suffix:  # "<suffix>:<k>" renames only the names whose checksum is divisible by k (a partial renaming)
+        suffix, k = suffix.split(":")
+        mod = int(k)
+
+    def pick(nm):
+        return nm != "self" and zlib.crc32(nm.encode()) % mod == 0
+
+    def ren(x):
+        if isinstance(x, list):
+            if len(x) >= 4 and x[0] == "pbind" and isinstance(x[1], str):
+                if pick(x[1]):
+                    x[1] = x[1] + suffix
+            elif len(x) >= 4 and x[0] == "path" and isinstance(x[1], int) and x[3] == "local" and isinstance(x[2], str):
+                if pick(x[2]):
+                    x[2] = x[2] + suffix
+            for y in x:
+                ren(y)
+        elif isinstance(x, dict):
+            for y in x.values():
+                ren(y)
+    ren(h.get("params"))
+    ren(h.get("body"))
+
+
+def local_names(h):
+    """[(name, signature)] of the distinct local names of one HIR function in order of first binding; the signature
+    (binders, uses, type at first use) is what a renamed local keeps"""
+    order, binds, uses, ty = [], {}, {}, {}
+
+    def rec(x):
+        if isinstance(x, list):
+            if len(x) >= 4 and x[0] == "pbind" and isinstance(x[1], str):
+                if x[1] not in binds:
+                    order.append(x[1])
+                binds[x[1]] = binds.get(x[1], 0) + 1
+            elif len(x) >= 4 and x[0] == "path" and isinstance(x[1], int) and x[3] == "local" and isinstance(x[2], str):
+                uses[x[2]] = uses.get(x[2], 0) + 1
+                if x[2] not in ty and len(x) > 4 and isinstance(x[4], str):
+                    ty[x[2]] = x[4]
+            for y in x:
+                rec(y)
+        elif isinstance(x, dict):
+            for y in x.values():
+                rec(y)
+    rec(h.get("params"))
+    rec(h.get("body"))
+    return [(n, f"{binds[n]}/{uses.get(n, 0)}/{ty.get(n, '?')}") for n in order if n != "self"]
+
+
+_LOCALS_REF = None
+
+
+def locals_ref():
+    global _LOCALS_REF
+    if _LOCALS_REF is None:
+        p = os.path.join(VERIF, "refs", "locals.json")
+        _LOCALS_REF = json.load(open(p)) if os.path.exists(p) else {}
+    return _LOCALS_REF
+
+
+def canonical_locals(h, ref):
+    """Alpha-normalisation: the rules name locals as the pinned tree does (refs/locals.json, generated by tools/gen_locals_ref.py).
+    Locals that still carry their reference name are left alone; a local whose name is not in the reference takes the label of the
+    reference local it replaces (same position among the changed ones when the counts agree, else the one with the same signature).
+    A pure renaming therefore yields exactly the tree the rules were written against; anything else is seen as it is."""
+    if not ref:
+        return 0
+    cur = local_names(h)
+    ref_names = [n for n, _ in ref]
+    cur_names = [n for n, _ in cur]
+    new = [(n, s) for n, s in cur if n not in ref_names]
+    gone = [(n, s) for n, s in ref if n not in cur_names]
+    if not new or not gone:
+        return 0
+    mapping = {}
+    if len(new) == len(gone):
+        for (n, s), (r, rs) in zip(new, gone):
+            mapping[n] = r
+    else:
+        import difflib
+        sm = difflib.SequenceMatcher(a=[s for _, s in new], b=[s for _, s in gone], autojunk=False)
+        for blk in sm.get_matching_blocks():
+            for k in range(blk.size):
+                mapping[new[blk.a + k][0]] = gone[blk.b + k][0]
+    if not mapping:
+        return 0
+
+    def ren(x):
+        if isinstance(x, list):
+            if len(x) >= 4 and x[0] == "pbind" and isinstance(x[1], str):
+                x[1] = mapping.get(x[1], x[1])
+            elif len(x) >= 4 and x[0] == "path" and isinstance(x[1], int) and x[3] == "local" and isinstance(x[2], str):
+                x[2] = mapping.get(x[2], x[2])
+            for y in x:
+                ren(y)
+        elif isinstance(x, dict):
+            for y in x.values():
+                ren(y)
+    ren(h.get("params"))
+    ren(h.get("body"))
+    return len(mapping)
 
 
 class MissingAnchor(Exception):
